@@ -119,6 +119,12 @@ impl MultiWriter {
 
             let (metadata, checksum) = writer.finish()?;
 
+            // IMPORTANT: fsync folder on Unix, otherwise the new blob file's directory entry
+            // may be lost in a crash although a version that references it is already durable
+            if let Some(folder) = path.parent() {
+                crate::file::fsync_directory(folder)?;
+            }
+
             let file = Arc::new(File::open(&path)?);
             let file_accessor = descriptor_table.map_or(FileAccessor::File(file.clone()), |dt| {
                 FileAccessor::DescriptorTable(dt)
